@@ -151,6 +151,8 @@ fn read_asts(path: &str) -> Vec<Value> {
     let f = std::io::BufReader::new(std::fs::File::open(path).expect("rules file"));
     let mut v = Vec::new();
     tlc_vectors(f, |x| v.push(x), |_| {});
+    // TLC's workers print in no particular order: sort, so that a run is a function of the seed
+    v.sort_by_key(|x| x["seed"].as_u64().unwrap_or(0));
     v
 }
 
@@ -281,8 +283,18 @@ pub fn record(prop: &str, rules_file: &str, out: &str, nwords: usize) {
                     let wt = if kind == "noise" && j % 2 == 1 { noise(&mut rng) } else if rng.chance(1, 6) { rng.pick(&c.test_words).clone() } else { gen_word_text(&mut rng, true) };
                     let wl = wt.chars().count();
                     let b = budget(wl, rule_len(&a["rule"]) + 4, backtrackers(&a["rule"]) + 1);
-                    let (t2, w2) = (text.clone(), wt.clone());
-                    let rec = v::record(b, false, true, move || asca::run(&[RuleGroup::from_rules(vec![t2])], &[w2], &[], &[]));
+                    // alias strings: mostly none; documented shapes (multi-element inputs with modifiers, + operator, $ rules); mutations and noise
+                    const FROMS: [&str; 10] = ["xan:[tone:55] > H", "a [+cons] > X", "t a:[+long] > X", "V:[+str, +long] > +\u{302}", "$ > *", "ka, ta, na > K, T, N", "[+nasal] > +\u{328}", "ʃ:[+long] > ssh", "a:[+long] > ā", "[-anterior] > X"];
+                    const INTOS: [&str; 6] = ["sh > ʃ", "â, ā > a:[+str, +long], a:[+long]", "+\u{328} > [+nasal]", "ng > ŋ", "x > ks", "A > a:[tone: 55]"];
+                    let (into, from): (Vec<String>, Vec<String>) = match rng.below(8) {
+                        0 | 1 => (vec![], (0..1 + rng.below(2)).map(|_| rng.pick(&FROMS[..]).to_string()).collect()),
+                        2 => ((0..1 + rng.below(2)).map(|_| rng.pick(&INTOS[..]).to_string()).collect(), vec![]),
+                        3 => { let (a, b) = (*rng.pick(&INTOS[..]), *rng.pick(&FROMS[..])); (vec![mutate(a, &mut rng)], vec![mutate(b, &mut rng)]) }
+                        4 if kind == "noise" => (vec![noise(&mut rng)], vec![noise(&mut rng)]),
+                        _ => (vec![], vec![]),
+                    };
+                    let (t2, w2, i2, f2) = (text.clone(), wt.clone(), into.clone(), from.clone());
+                    let rec = v::record(b, false, true, move || asca::run(&[RuleGroup::from_rules(vec![t2])], &[w2], &i2, &f2));
                     let (outk, detail, site) = match &rec.result {
                         Ok(Ok(_)) => ("ok", String::new(), 0i64),
                         Ok(Err(e)) => ("err", err_key(e), 0),
@@ -294,10 +306,12 @@ pub fn record(prop: &str, rules_file: &str, out: &str, nwords: usize) {
                     let ticks = ticks_json(&rec.events, 300);
                     // the tracer must return too
                     let (t3, w3) = (text.clone(), wt.clone());
-                    let rec2 = v::record(b, false, false, move || asca::get_trace_string(&[RuleGroup::from_rules(vec![t3])], w3, &[]).map(|_| ()));
+                    let i3 = into.clone();
+                    let rec2 = v::record(b, false, false, move || asca::get_trace_string(&[RuleGroup::from_rules(vec![t3])], w3, &i3).map(|_| ()));
                     let out2 = match &rec2.result { Ok(_) => "ret", Err(p) => if p.downcast_ref::<v::BudgetExhausted>().is_some() { "budget" } else { "panic" } };
+                    let detail2 = match &rec2.result { Ok(_) => String::new(), Err(p) => panic_msg(p) };
                     w.put(json!({"cls": kind, "out": outk, "out2": out2, "site": site, "nticks": rec.ticks as i64, "ticks": ticks}),
-                          json!({"rule": text, "word": wt, "outcome": outk, "detail": detail, "trace_outcome": out2, "budget": b}));
+                          json!({"rule": text, "word": wt, "into": into, "from": from, "outcome": outk, "detail": detail, "trace_outcome": out2, "trace_detail": detail2, "budget": b}));
                     if sum.samples.len() < 5 { sum.sample(|| json!({"kind": kind, "rule": text, "word": wt, "outcome": outk, "detail": detail})); }
                 }
             }
